@@ -11,13 +11,32 @@ from .chk_parse import _ANSI
 glue.setup_repo_path()
 
 
+_WT = [0]
+
+
 def write_tree(root, files):
+    """every third tree: modules below the root directory are written with CRLF line endings (text files of another
+    platform), and every file in a sub-directory gets a DECOY of the same file name beside the root schema, declaring something
+    else - a module path is resolved relative to the importing file, never against the root"""
     shutil.rmtree(root, ignore_errors=True)
+    _WT[0] += 1
+    crlf = _WT[0] % 3 == 0
+    names = {tuple(f["path"]) for f in files}
     for f in files:
         p = os.path.join(root, *f["path"]) + ".fcp"
         os.makedirs(os.path.dirname(p), exist_ok=True)
-        with open(p, "w") as fh:
-            fh.write(f["text"])
+        with open(p, "w", newline="") as fh:
+            fh.write(f["text"].replace("\n", "\r\n") if crlf and len(f["path"]) >= 1 and f["path"] != ["main"]
+                     and "\r" not in f["text"] else f["text"])
+        if _WT[0] % 2 == 0:
+            for k in range(1, len(f["path"])):
+                suffix = tuple(f["path"][k:])          # where the same dotted path would lead from the ROOT directory
+                if suffix in names:
+                    continue
+                dp = os.path.join(root, *suffix) + ".fcp"
+                os.makedirs(os.path.dirname(dp), exist_ok=True)
+                with open(dp, "w") as fh:
+                    fh.write('version: "3"\n\nstruct Decoy%s%d { z @0: u1, }\n' % (suffix[-1].capitalize(), k))
     return os.path.join(root, "main.fcp")
 
 
